@@ -1,17 +1,83 @@
-//! C15 placeholder (being built): smoke test of the e2e helpers.
+//! C15: placeholder workflow for data-hash formats.
+//! case: {format, fixture, excl: [[start,len]..] (extra exclusions besides the placeholder region),
+//!        title, alg, reserve (optional extra reserve for the signer), embed_at (offset for the composed placeholder)}
+//! out:  {placeholder_len, signed_len, r, readback: report}
+use std::io::Cursor;
+
+use c2pa::{Builder, HashRange, Signer, SigningAlg};
 use serde_json::{json, Value};
 
-use crate::e2e;
+use crate::{e2e, util::*};
+
+struct ReserveSigner {
+    inner: c2pa::BoxedSigner,
+    extra: usize,
+}
+impl Signer for ReserveSigner {
+    fn sign(&self, data: &[u8]) -> c2pa::Result<Vec<u8>> {
+        self.inner.sign(data)
+    }
+    fn alg(&self) -> SigningAlg {
+        self.inner.alg()
+    }
+    fn certs(&self) -> c2pa::Result<Vec<Vec<u8>>> {
+        self.inner.certs()
+    }
+    fn reserve_size(&self) -> usize {
+        self.inner.reserve_size() + self.extra
+    }
+}
 
 pub fn run(case: &Value) -> Value {
     let fmt = case["format"].as_str().unwrap_or("image/jpeg");
     let src = e2e::fixture(case["fixture"].as_str().unwrap_or("earth_apollo17.jpg"));
-    let s = e2e::signer(case["alg"].as_str().unwrap_or("ed25519"));
-    match e2e::sign(e2e::context(None), &e2e::minimal_manifest("t"), fmt, &src, s.as_ref()) {
-        Ok(out) => match e2e::read(e2e::context(None), fmt, &out) {
-            Ok(r) => json!({"r": "ok", "report": e2e::report(&r), "len": out.len()}),
-            Err(e) => json!({"r": "err", "kind": crate::util::err_class(&e)}),
-        },
-        Err(e) => json!({"r": "err", "kind": crate::util::err_class(&e), "detail": e.to_string()}),
+    let alg = case["alg"].as_str().unwrap_or("ed25519");
+    let extra = case["reserve"].as_u64().unwrap_or(0) as usize;
+    let signer = ReserveSigner { inner: e2e::signer(alg), extra };
+    let ctx = e2e::context(None).with_signer(signer);
+    let def = e2e::minimal_manifest(case["title"].as_str().unwrap_or("t"));
+    let mut builder = match Builder::from_context(ctx).with_definition(def.as_str()) {
+        Ok(b) => b,
+        Err(e) => return json!({"r": "err", "stage": "definition", "kind": err_class(&e)}),
+    };
+    let ph = match builder.placeholder(fmt) {
+        Ok(p) => p,
+        Err(e) => return json!({"r": "err", "stage": "placeholder", "kind": err_class(&e)}),
+    };
+    if ph.is_empty() {
+        return json!({"r": "noplaceholder"});
     }
+    // embed the composed placeholder at embed_at (JPEG: after SOI)
+    let at = case["embed_at"].as_u64().unwrap_or(2) as usize;
+    let mut asset = Vec::with_capacity(src.len() + ph.len());
+    asset.extend_from_slice(&src[..at]);
+    asset.extend_from_slice(&ph);
+    asset.extend_from_slice(&src[at..]);
+    let mut ex = vec![HashRange::new(at as u64, ph.len() as u64)];
+    if let Some(a) = case["excl"].as_array() {
+        for r in a {
+            ex.push(HashRange::new(u64_of(&r[0]), u64_of(&r[1])));
+        }
+    }
+    if let Err(e) = builder.set_data_hash_exclusions(ex) {
+        return json!({"r": "err", "stage": "exclusions", "kind": err_class(&e), "placeholder_len": ph.len()});
+    }
+    if let Err(e) = builder.update_hash_from_stream(fmt, &mut Cursor::new(asset.clone())) {
+        return json!({"r": "err", "stage": "hash", "kind": err_class(&e), "placeholder_len": ph.len()});
+    }
+    let signed = match builder.sign_embeddable(fmt) {
+        Ok(s) => s,
+        Err(e) => {
+            return json!({"r": "err", "stage": "sign", "kind": err_class(&e), "detail": e.to_string(), "placeholder_len": ph.len()})
+        }
+    };
+    let mut out = json!({"r": "ok", "placeholder_len": ph.len(), "signed_len": signed.len()});
+    if signed.len() == ph.len() {
+        asset[at..at + ph.len()].copy_from_slice(&signed);
+        out["readback"] = match e2e::read(e2e::context(None), fmt, &asset) {
+            Ok(r) => e2e::report(&r),
+            Err(e) => json!({"err": err_class(&e)}),
+        };
+    }
+    out
 }
